@@ -152,7 +152,9 @@ def apply(toks, au, opts):
         out.append(t)
         i += 1
     toks = out
-    # const NAME: T = E;  at statement position inside a body  ->  let NAME: T = E;   (same value, evaluated once)
+    # const NAME: T = <expression that calls a function>;  at statement position inside a fn body  ->  let NAME: T = ...;
+    # (Verus consts cannot call exec functions; same value, evaluated once.)  Consts without calls stay consts.  A const
+    # may be used as a PATTERN, where a `let` name would become a catch-all binding: refused if NAME occurs before `=>` or `|`.
     from .extract import _stmt_pos
     depth = 0
     for q in range(len(toks)):
@@ -162,22 +164,23 @@ def apply(toks, au, opts):
             depth -= 1
         elif is_id(toks[q], "const") and depth >= 1 and q + 2 < len(toks) and toks[q + 1].kind == "id" and is_p(toks[q + 2], ":") and _stmt_pos(toks[:q]) \
                 and not is_id(toks[q + 1], "fn"):
-            # only inside fn bodies: the enclosing item must be a fn (first token sequence contains `fn` before the first `{`)
             pre = [x.text for x in toks[:q]]
-            if "fn" in pre:
-                au.note("R", f"inner const {toks[q+1].text} -> let")
-                toks[q] = Tok("id", "let", toks[q].ws)
-                # a literal-valued inner const used as an array length: `[E; NAME]` needs a constant, so the literal is
-                # written there (exact: const substitution)
-                e = q
-                while not is_p(toks[e], ";"):
-                    e += 1
-                if is_p(toks[e - 2], "=") and toks[e - 1].kind == "num":
-                    nm, lit = toks[q + 1].text, toks[e - 1].text
-                    for z in range(e + 1, len(toks) - 2):
-                        if is_p(toks[z], ";") and is_id(toks[z + 1], nm) and is_p(toks[z + 2], "]"):
-                            au.note("R", f"array length {nm} -> {lit}")
-                            toks[z + 1] = Tok("num", lit, toks[z + 1].ws)
+            if "fn" not in pre:
+                continue
+            e = q
+            while not is_p(toks[e], ";"):
+                e += 1
+            has_call = any(is_p(toks[z], "(") and toks[z - 1].kind == "id" for z in range(q + 3, e))
+            if not has_call:
+                continue
+            nm = toks[q + 1].text
+            for z in range(e + 1, len(toks) - 2):
+                if is_id(toks[z], nm) and not is_p(toks[z - 1], ".") and (
+                        (is_p(toks[z + 1], "=") and is_p(toks[z + 2], ">")) or is_p(toks[z + 1], "|") and not is_p(toks[z + 2], "|")
+                        or is_p(toks[z - 1], "|") and not is_p(toks[z - 2], "|")):
+                    raise Undecided(f"inner const {nm} (initialised by a call) is used as a pattern")
+            au.note("R", f"inner const {nm} (initialised by a call) -> let")
+            toks[q] = Tok("id", "let", toks[q].ws)
     # Instant::now() <= X   ->  Instant::now().vx_le(&X)     (comparison on a shimmed clock type; recipe opt instant_le)
     if opts.get("instant_le"):
         while True:
